@@ -244,14 +244,27 @@ def parent_for(unit, element, rules):
     return p
 
 
-def realise(unit, element, word, rules, same_id=None):
-    """same_id: construct every child with this explicit id (Node(name, id=...) takes any id, also a used one)"""
+HOSTILE_FOREIGN_NAMES = ["%s", "{0}", "100%d", "%(name)s", "zz:foreign", " ", "zzForeign\u00e9", "{a.b}", "\\"]      # none is a name of any rule
+
+
+def realise(unit, element, word, rules, same_id=None, prefix=None, unregister=False):
+    """same_id: construct every child with this explicit id (Node(name, id=...) takes any id, also a used one);
+    prefix: give every child this namespace prefix (a separate field: the element NAME stays what the rule speaks about);
+    unregister: drop the children from the registry again (the registry is not the tree)"""
     from metapype.model.node import Node as _Node
-    Node = (lambda nm: _Node(nm, id=same_id)) if same_id else _Node
+
+    def Node(nm):
+        c = _Node(nm, id=same_id) if same_id else _Node(nm)
+        if prefix:
+            c.prefix = prefix
+            c.add_namespace(prefix, "urn:" + prefix)
+        if unregister:
+            _Node.store.pop(c.id, None)
+        return c
     p = parent_for(unit, element, rules)
     for i, a in enumerate(word):
         if a == FOREIGN:
-            nm = FOREIGN_NAME
+            nm = HOSTILE_FOREIGN_NAMES[i % len(HOSTILE_FOREIGN_NAMES)] if same_id else FOREIGN_NAME
         elif a == ANY:
             nm = ["title", "zzAnything", "dataset"][i % 3]
         else:
@@ -379,7 +392,8 @@ def w_words(items):
             batch = words[lo:lo + 12]
             for order in (batch, batch[::-1]):
                 # (the reversed pass builds every child of every parent with one explicit id: ids are the caller's business)
-                parents = [realise(unit, element, w, rules, same_id=None if order is batch else "same-id") for w in order]
+                hostile = {} if order is batch else {"same_id": "same-id", "prefix": "ns0", "unregister": True}      # ... a prefix, and no registry entry
+                parents = [realise(unit, element, w, rules, **hostile) for w in order]
                 raised, by = forest_errors(parents)
                 Node.store.clear()
                 if raised is not None:
